@@ -26,8 +26,9 @@ type hostAPI struct {
 	debit, attach, detach                                      *types.Func
 	readRequest, verifyHash, signHash, contractSig, renewalSig *types.Func
 	hostKey                                                    *types.Var
-	handlers                                                   []*ir.Func
+	handlers                                                   []*ir.Func // expanded views (helpers inlined; handlers and lock wrappers stay calls)
 	lockWrappers                                               []*ir.Func
+	vs                                                         *ir.ViewSet
 }
 
 func getHostAPI(p *ir.Prog) *hostAPI {
@@ -47,14 +48,22 @@ func getHostAPI(p *ir.Prog) *hostAPI {
 	h.contractSig = p.Method("consensus", "State", "ContractSigHash")
 	h.renewalSig = p.Method("consensus", "State", "RenewalSigHash")
 	h.hostKey = p.FieldOr("rhp", "Server", "hostKey", isNamedT("types", "PrivateKey"))
+	units := map[*types.Func]bool{}
+	var raw []*ir.Func
 	for _, f := range p.MethodsOf("rhp", "Server") {
 		if len(f.CallsTo(false, h.readRequest)) > 0 {
-			h.handlers = append(h.handlers, f)
+			raw = append(raw, f)
+			units[f.Obj] = true
 			continue
 		}
 		if len(f.CallsTo(false, h.lockV2)) > 0 && f.Type.Results != nil && len(f.Type.Results.List) == 3 {
 			h.lockWrappers = append(h.lockWrappers, f)
+			units[f.Obj] = true
 		}
+	}
+	h.vs = p.Views("rhp", ir.ExpandOpt{Key: "host-handlers", Stop: func(fn *types.Func) bool { return units[fn] }})
+	for _, f := range raw {
+		h.handlers = append(h.handlers, h.vs.Of(f))
 	}
 	return h
 }
